@@ -1,0 +1,94 @@
+//go:build verif && linux
+
+package conn
+
+import (
+	"errors"
+
+	"golang.org/x/sys/unix"
+)
+
+// Exports for the verification harness of property C18 (build tag verif only).
+// Add-only.
+
+// VerifSetEndpointSrc sets the sticky source control bytes of ep, as
+// getSrcFromControl does after a receive.
+func VerifSetEndpointSrc(ep *StdNetEndpoint, src []byte) {
+	ep.src = append(ep.src[:0], src...)
+}
+
+// VerifEndpointSrc returns the sticky source control bytes of ep.
+func VerifEndpointSrc(ep *StdNetEndpoint) []byte {
+	return ep.src
+}
+
+// VerifStickyControlSize exposes stickyControlSize.
+func VerifStickyControlSize() int {
+	return stickyControlSize
+}
+
+// VerifOffload reports the offload flags of an open StdNetBind.
+func VerifOffload(b Bind) (tx4, rx4, tx6, rx6 bool) {
+	s, ok := b.(*StdNetBind)
+	if !ok {
+		return
+	}
+	s.mu.Lock()
+	defer s.mu.Unlock()
+	return s.ipv4TxOffload, s.ipv4RxOffload, s.ipv6TxOffload, s.ipv6RxOffload
+}
+
+// VerifDisableOffload puts an open StdNetBind into the state it has on a
+// kernel without UDP_SEGMENT/UDP_GRO: the tx flags are cleared, UDP_GRO is
+// switched off on both sockets, and receive functions built without rx offload
+// are returned (the ones returned by Open captured the flag by value).
+func VerifDisableOffload(b Bind) ([]ReceiveFunc, error) {
+	s, ok := b.(*StdNetBind)
+	if !ok {
+		return nil, errors.New("not a StdNetBind")
+	}
+	s.mu.Lock()
+	defer s.mu.Unlock()
+	var fns []ReceiveFunc
+	if s.ipv4 != nil {
+		rc, err := s.ipv4.SyscallConn()
+		if err != nil {
+			return nil, err
+		}
+		if s.ipv4RxOffload {
+			var serr error
+			if err := rc.Control(func(fd uintptr) {
+				serr = unix.SetsockoptInt(int(fd), unix.IPPROTO_UDP, unix.UDP_GRO, 0)
+			}); err != nil {
+				return nil, err
+			}
+			if serr != nil {
+				return nil, serr
+			}
+		}
+		s.ipv4TxOffload = false
+		s.ipv4RxOffload = false
+		fns = append(fns, s.makeReceiveIPv4(s.ipv4PC, s.ipv4, false))
+	}
+	if s.ipv6 != nil {
+		rc, err := s.ipv6.SyscallConn()
+		if err != nil {
+			return nil, err
+		}
+		if s.ipv6RxOffload {
+			var serr error
+			if err := rc.Control(func(fd uintptr) {
+				serr = unix.SetsockoptInt(int(fd), unix.IPPROTO_UDP, unix.UDP_GRO, 0)
+			}); err != nil {
+				return nil, err
+			}
+			if serr != nil {
+				return nil, serr
+			}
+		}
+		s.ipv6TxOffload = false
+		s.ipv6RxOffload = false
+		fns = append(fns, s.makeReceiveIPv6(s.ipv6PC, s.ipv6, false))
+	}
+	return fns, nil
+}
